@@ -140,6 +140,11 @@ def run(sc, ctx):
     for tab in ['atom_type_elements', 'atom_type_labels', 'atom_type_masses', 'pair_coeffs'] + [k + '_type_coeffs' for k in KINDS]:
         if [str(x) for x in getattr(r, tab)] != [str(x) for x in getattr(A, tab)]:
             bad.append(('tables', '%s changed: %r -> %r' % (tab, list(getattr(A, tab)), list(getattr(r, tab)))))
+    for k in ['atom'] + KINDS:
+        la, lr = list(getattr(A, 'extra_%s_labels' % k)), list(getattr(r, 'extra_%s_labels' % k))
+        fr_ = np.asarray(getattr(r, 'extra_%s_fields' % k)); nrow = len(r.atom_types) if k == 'atom' else len(getattr(r, ATTR[k]))
+        if la != lr or (fr_.ndim == 2 and fr_.shape[1] != len(la)) or (len(la) and len(fr_) != nrow):
+            bad.append(('tables', 'extra %s columns of the replica are %r (field table shape %r), the original has %r' % (k, lr, fr_.shape, la)))
     if dims == (1, 1, 1) and raw_state(r) != before:
         bad.append(('identity', '1x1x1 replication is not the identity'))
     els, err = call(lambda: [str(x) for x in r.elements])
